@@ -303,6 +303,39 @@ def run(ck):
                          "a group measured in the reference basis adds %r to the phase gradient, expected nothing" % (t1,))
         if n_ref == 0:
             ck.undecided("C20.R5", "reference-basis rows contribute no phase gradient", g.site(), "no path of gradient() handles a group without rotated sites")
+    # ------------------------------------------------------------------ R6 two states alive at once ("any sequence of construct / ...")
+    # what a state holds after its construction is its own: constructing (or reinitialising) another state - of the same or of
+    # another type - leaves the first one's networks the very objects they were, with the parameters they had
+    for cls_a in STATES:
+        for cls_b in STATES:
+            inst = "%s, then %s constructed" % (cls_a, cls_b)
+            isite = prog.method(cls_b, "__init__").site()
+            with ck.guard("C20.R6", inst, isite):
+                def th2(it, cls_a=cls_a, cls_b=cls_b):
+                    a = make_state(it, cls_a)
+                    before = {n: it.get_attr(a, n, None) for n in state_networks(it, a)}
+                    pb = {n: param_objs(it, before[n]) for n in before}
+                    b = make_state(it, cls_b)
+                    call(it, b, "reinitialize_parameters")
+                    after = {n: it.get_attr(a, n, None) for n in before}
+                    nb = {n: it.get_attr(b, n, None) for n in state_networks(it, b)}
+                    return before, pb, after, nb, a
+
+                for p in paths_of(prog, th2, max_paths=12):
+                    if p.outcome != "return":
+                        ck.undecided("C20.R6", inst, isite, "the two constructions do not return: %s" % (str(p.value)[:100],))
+                        continue
+                    before, pb, after, nb, a = p.value
+                    for n in before:
+                        same = isinstance(before[n], VObj) and isinstance(after[n], VObj) and after[n].inst is before[n].inst
+                        ck.check(True if same else (False if isinstance(after[n], (VObj, VConst)) else None), "C20.R6", inst + ":the first state keeps its %s" % n, isite,
+                                 "after a second state has been constructed the first state's %s is %s: the states share what stores their networks" % (n, "another object" if isinstance(after[n], VObj) else "gone"),
+                                 key="C20.R6|%s|%s shared" % (cls_a, n))
+                        if same:
+                            ck.check(param_objs(p.interp, after[n]) == pb[n], "C20.R6", inst + ":%s keeps its parameter tensors" % n, isite, "the parameters of the first state's %s were replaced" % n)
+                        shared = [m for m, v in nb.items() if isinstance(v, VObj) and isinstance(before[n], VObj) and v.inst is before[n].inst]
+                        ck.check(not shared, "C20.R6", inst + ":the second state has its own %s" % n, isite, "the second state's %s is the first state's %s" % (", ".join(shared), n))
+    ck.require_min("C20.R6", 18)
     ck.require_min("C20.R1", 6)
     ck.require_min("C20.R2", 12)
     ck.require_min("C20.R3", 30)
